@@ -42,6 +42,35 @@ theorem fuel_suffices :
       (terminals Gen.table 16 s0) ≠ [] := by
   decide +kernel
 
+/-- the states in which the stop request can find an invocation whose THREAD ENDS WITHOUT A FINAL STATUS: the body asks for a
+    pause (RUNNING stays), or the store fails at the RUNNING write (PENDING stays) — before, while and after the thread ends -/
+def initialsEnded : List St :=
+  [ { sr := ⟨.pending, self⟩, queued := 0, t := .start, k := .check, script := .pause },
+    { sr := ⟨.running, self⟩, queued := 0, t := .body, k := .check, script := .pause },
+    { sr := ⟨.running, self⟩, queued := 0, t := .done, k := .check, script := .pause },
+    { sr := ⟨.pending, self⟩, queued := 0, t := .start, k := .check, script := .startFault },
+    { sr := ⟨.pending, self⟩, queued := 0, t := .done, k := .check, script := .startFault } ]
+
+/-- ST1' . The same postcondition for threads that end WITHOUT a final status (pause request, store fault at the RUNNING
+    write): whenever the stop request comes — also after the thread has ended, the loop not having pruned it yet — the stop
+    completes and the invocation is re-queued, available and nobody's.  This is what the "already-dead thread: join, then
+    kill-and-reroute" branch of `_on_stop` is for. -/
+theorem stop_postcondition_ended_threads :
+    ∀ s0 ∈ initialsEnded, (terminals Gen.table 16 s0) ≠ [] ∧
+      ∀ s ∈ terminals Gen.table 16 s0, stopped s = true ∧ s.t = .done ∧ post Gen.table s = true ∧
+        s.sr = ⟨.rerouted, none⟩ ∧ s.queued = 1 := by
+  decide +kernel
+
+/-- …and the stop that prunes ended threads first (as the loop's slot reclaim does) and only handles the alive ones strands
+    them: the paused invocation stays RUNNING, the faulted one PENDING, under the stopped runner, in no queue. -/
+theorem pruning_ended_threads_strands_them :
+    (∀ s ∈ terminalsV false Gen.table 16 { sr := ⟨.running, self⟩, queued := 0, t := .done, k := .check, script := .pause },
+        stopped s = true ∧ s.sr = ⟨.running, self⟩ ∧ s.queued = 0 ∧ post Gen.table s = false) ∧
+    (∀ s ∈ terminalsV false Gen.table 16 { sr := ⟨.pending, self⟩, queued := 0, t := .done, k := .check, script := .startFault },
+        stopped s = true ∧ s.sr = ⟨.pending, self⟩ ∧ s.queued = 0 ∧ post Gen.table s = false) ∧
+    terminalsV false Gen.table 16 { sr := ⟨.running, self⟩, queued := 0, t := .done, k := .check, script := .pause } ≠ [] := by
+  decide +kernel
+
 /-- ST2 (refutation, known finding). A task thread waiting for a sub-task that nobody runs any more (its own runner
     is the one being stopped) never ends: after the kill-and-reroute the loop thread blocks in `join`, so `run()`
     never returns.  Every terminal state of this workload is stuck with the stop procedure not finished. -/
